@@ -27,6 +27,21 @@ from .heap import MapRef, Row, SeqRef
 from .values import BoundMethod, DictView, IFunc, LazyMap, ModelFn, Obj, Opaque, SeqVal
 
 
+PURE_MODULES = ("spec.wire", "spec.api", "spec.prims")
+
+
+def _cache_key(key, args):
+    out = [key]
+    for a in args:
+        if isinstance(a, SV):
+            out.append((a.kind, a.term.get_id()))
+        elif isinstance(a, (int, str, bool, type(None))):
+            out.append(("c", type(a).__name__, a))
+        else:
+            return None
+    return tuple(out)
+
+
 class ReturnEx(Exception):
     def __init__(self, value):
         self.value = value
@@ -142,6 +157,7 @@ class Interp:
         self.write_log = None
         self.formula_mode = False
         self.summary_log = []
+        self.pure_cache = {}
         self.post_hooks = {}
         self.env = {}
         from . import models
@@ -293,6 +309,18 @@ class Interp:
         mm = self.models.get(id(func))
         if mm is not None:
             return mm.fn(self, list(args), dict(kwargs))
+        ck = None
+        if key[0] in PURE_MODULES and not kwargs:
+            ck = _cache_key(key, args)
+            if ck is not None and ck in self.pure_cache:
+                return self.pure_cache[ck]
+        if ck is not None:
+            rv = self._call_function_uncached(func, args, kwargs, defcls, node, key)
+            self.pure_cache[ck] = rv
+            return rv
+        return self._call_function_uncached(func, args, kwargs, defcls, node, key)
+
+    def _call_function_uncached(self, func, args, kwargs, defcls, node, key):
         summ = self.summaries.get(key)
         if summ is not None and key != self.verifying_key():
             r = summ(self, func, list(args), dict(kwargs))
